@@ -369,6 +369,45 @@ def r2_inputs(repo, report):
     want = {(False, False): ("_upper_table()", "_upper_table()", "operator.eq"), (True, False): ("_iupac_table()", "_acgt_table()", "operator.and_"), (False, True): ("_acgt_table()", "_iupac_table()", "operator.and_"), (True, True): ("_iupac_table()", "_iupac_table()", "operator.and_")}
     ok = all(all(w in tbl.get(k, "") for w in v) and tbl.get(k, "").index(v[0]) <= tbl.get(k, "").rindex(v[1]) for k, v in want.items())
     report.ob("C07.R2", "matches_lookup table choice", ok, facts={str(k): v[:120] for k, v in tbl.items()}, expected="(ref, query): none -> upper/upper ==; ref only -> iupac/acgt; query only -> acgt/iupac; both -> iupac/iupac", loc=repo.loc(ml), cases=len(rows))
+    # the prefilter's character masks: for every adapter character the set of ALL read characters (1..127) that the
+    # aligner's comparison accepts - computed here from the folded tables and compared with what the generator yields
+    import operator as _op
+
+    gen = repo.func("_match_tables", "all_matches_generator")
+    tabs = {}
+    for nm in ("_upper_table", "_iupac_table", "_acgt_table"):
+        try:
+            tabs[nm] = constfold.fold_function(repo.func("_match_tables", nm))
+        except Exception as e:  # noqa: BLE001
+            tabs[nm] = None
+    combos = {"no wildcards": ("_upper_table", "_upper_table", _op.eq), "adapter wildcards": ("_iupac_table", "_acgt_table", _op.and_),
+              "read wildcards": ("_acgt_table", "_iupac_table", _op.and_), "both": ("_iupac_table", "_iupac_table", _op.and_)}
+    gp = params(gen)
+    bad_masks = []
+    n_masks = 0
+    if all(isinstance(t, bytes) and len(t) == 256 for t in tabs.values()) and len(gp) == 3:
+        for label, (rt, qt, op) in combos.items():
+            try:
+                got = constfold.fold_function(gen, {gp[0]: tabs[rt], gp[1]: tabs[qt], gp[2]: op}, max_steps=400000)
+            except Exception as e:  # noqa: BLE001
+                bad_masks.append((label, f"generator could not be folded: {type(e).__name__}: {e}"))
+                continue
+            if not isinstance(got, list) or len(got) != 256:
+                bad_masks.append((label, "does not yield one mask per adapter character"))
+                continue
+            for i in range(256):
+                want = bytes(j for j in range(1, 128) if op(tabs[rt][i], tabs[qt][j]))
+                n_masks += 1
+                if sorted(got[i]) != sorted(want):
+                    missing = bytes(sorted(set(want) - set(got[i])))[:8]
+                    extra = bytes(sorted(set(got[i]) - set(want)))[:8]
+                    bad_masks.append((label, f"adapter byte {i} ({chr(i)!r}): missing {missing!r} extra {extra!r}"))
+                    break
+    else:
+        bad_masks.append(("tables", "the encoding tables could not be folded"))
+    report.ob("C07.R2", "prefilter character masks equal the aligner's comparison", not bad_masks and n_masks == 1024, facts={"masks_compared": n_masks, "problems": [str(b)[:200] for b in bad_masks[:3]]},
+              expected="mask[adapter char] = every read character 1..127 for which comp_op(ref_table[adapter char], query_table[read char]) holds", loc=repo.loc(gen), cases=n_masks,
+              why=str(bad_masks[0])[:200] if bad_masks else "")
     # each match_to: same string for filter and aligner
     n = 0
     for cname in [c.name for c in repo.subclasses("SingleAdapter")]:
@@ -651,7 +690,33 @@ def r4_bounds(repo, report):
               why=(bad[0][0] + ": " + str(bad[0][1])[:200]) if bad else "")
 
 
+def _no_kmer_dropped(repo, report):
+    """remove_redundant_kmers / minimize_kmer_search_list only regroup: every k-mer of every search set is passed on
+    (an over-long k-mer must reach KmerFinder, whose ValueError triggers the always-true fallback)"""
+    fn = repo.func("kmer_heuristic", "remove_redundant_kmers")
+    inner = [n for n in ast.walk(fn) if isinstance(n, ast.For) and any(isinstance(x, ast.Call) and (chain(x.func) or "").endswith(".append") for x in n.body if isinstance(x, ast.Expr) for x in [x.value]) or
+             (isinstance(n, ast.For) and any(isinstance(x, ast.If) for x in n.body))]
+    bad = []
+    n_loops = 0
+    for lp in [n for n in ast.walk(fn) if isinstance(n, ast.For)]:
+        if any(isinstance(x, ast.For) for x in lp.body):
+            continue  # outer loop of a nest
+        n_loops += 1
+        env = {}
+        for nm in {x.id for x in ast.walk(lp) if isinstance(x, ast.Name)}:
+            env[nm] = Obj(nm.upper(), nonnull=True)
+        rws = explore(repo, lp.body, env, inline=False, loop_mode="forbid")
+        for r in rws:
+            passed = [e for e in r.effects if e[0] == "call" and e[1].endswith(".append")]
+            if r.exit[0] != "fall" or len(passed) != 1:
+                bad.append({"loop": src(lp.target), "path": r.describe()["valuation"], "exit": r.exit[0], "appends": len(passed)})
+    report.ob("C07.R5", "remove_redundant_kmers passes every k-mer on", not bad and n_loops >= 2, facts={"loops": n_loops, "problems": bad[:2]},
+              expected="each loop body appends its item unconditionally", loc=repo.loc(fn),
+              why=("a k-mer is left out on some path: its search set silently shrinks (or disappears) and reads carrying only that k-mer are rejected" if bad else ""))
+
+
 def r5_word(repo, report):
+    _no_kmer_dropped(repo, report)
     c, fn = repo.need_method("KmerFinder", "__cinit__")
     inner = [n for n in ast.walk(fn) if isinstance(n, ast.While)]
     if len(inner) < 2:
